@@ -8,7 +8,7 @@ import CJ.Drv.Util
 answer: `T:<events>|D:<hex>|n:<counted>|cli:<hex>|cov:<hex>|c:<src closes>,<dst closes>|done:<n>|comp:<n>|logs:<n>`
 
 `proxy|<dialErr>|<header: - or 1 or 0>|<up reads>|<up writes>|<up dls>|<up sc>|<up dc>|<down reads>|…|<down dc>`
-answer: `started:<b>|ret:<b>|gauge:<adds - removes>|printed:<n>|up:<n>|down:<n>|dial:<hex>|cc:<client closes>|panic:<b>` -/
+answer: `started:<b>|ret:<b>|gauge:<adds - removes>|printed:<n>|up:<n>|down:<n>|dial:<hex>|cli:<hex>|cov:<hex>|cc:<client closes>|vc:<covert connection closed>|panic:<b>` -/
 namespace CJ.Drv.HalfPipe
 open CJ.HalfPipe CJ.Drv
 
@@ -66,7 +66,8 @@ def parseHeader (s : String) : Option (Option Bool) :=
 def showProxy (o : ProxyOut) : String :=
   s!"started:{showBool o.started}|ret:{showBool o.returned}|gauge:{(o.gaugeAdds : Int) - o.gaugeRemoves}" ++
   s!"|printed:{o.printed}|up:{o.bytesUp}|down:{o.bytesDown}|dial:" ++ textHex o.dialStat ++
-  s!"|cc:{o.clientCloses}|panic:{showBool o.panicked}"
+  "|cli:" ++ textHex o.stats.client ++ "|cov:" ++ textHex o.stats.covert ++
+  s!"|cc:{o.clientCloses}|vc:{showBool (decide (0 < o.covertCloses))}|panic:{showBool o.panicked}"
 
 def handle (args : List String) : Option String :=
   match args with
